@@ -439,3 +439,60 @@ def prefix_allocation_step(sx, n):
         ok.append(sx.Not(sx.eq(got, 's' + ks[i])))
         ok.append(sx.eq(iface.prefmap['urn:ns%d' % i], 's' + ks[i]))
     return sx.And(*ok)
+
+
+# ---------------------------------------------------------------- type markers in members of a holder from another namespace
+class FarHolder(ComplexModel):
+    __namespace__ = 'urn:far'
+    one = Base
+    many = Array(Base)
+
+
+class FarSvc(Service):
+    @rpc(_returns=FarHolder)
+    def far(ctx):
+        return RET['ret']
+
+
+FAPPS = {}
+
+
+@harness('C16', params=[(pn, ci, fill) for pn in ('XmlDocument', 'Soap11', 'Soap12') for ci in range(3) for fill in ('all fields', 'no fields')],
+         label=lambda p: '%s runtime=%s %s' % (p[0], CLASSES[p[1]].__name__, p[2]),
+         functions=['spyne.protocol.xml.XmlDocument.serialize', 'spyne.protocol.xml.XmlDocument.gen_members_parent'],
+         bounds={'document': 'a holder class from another namespace with a Base member and an Array(Base) member holding an instance of '
+                             'Base, Child or GrandChild whose fields are all set or all None (an element without children)'})
+def xml_marker_scope(sx, p):
+    """every xsi:type written into a response resolves, in the transmitted document, to the namespace of the class - also
+    when the element that carries it has no children and sits in a member of a class from another namespace"""
+    from lxml import etree
+    pname, ci, fill = p
+    P = {'XmlDocument': XmlDocument, 'Soap11': Soap11, 'Soap12': Soap12}[pname]
+    if pname not in FAPPS:
+        FAPPS[pname] = Application([FarSvc], 'tns', in_protocol=P(), out_protocol=P(polymorphic=True))
+    app = FAPPS[pname]
+    server = ServerBase(app)
+    cls = CLASSES[ci]
+    mk = (lambda: cls(**dict((f, 1 if f in ('a', 'b') else 'v') for f in FIELDS[cls]))) if fill == 'all fields' else (lambda: cls())
+    RET['ret'] = FarHolder(one=mk(), many=[mk(), mk()])
+    body = b'<far xmlns="tns"/>'
+    if pname != 'XmlDocument':
+        env = 'http://schemas.xmlsoap.org/soap/envelope/' if pname == 'Soap11' else 'http://www.w3.org/2003/05/soap-envelope'
+        body = ('<e:Envelope xmlns:e="%s"><e:Body>' % env).encode() + body + b'</e:Body></e:Envelope>'
+    ctx = MethodContext(server, MethodContext.SERVER)
+    ctx.in_string = [body]
+    ctx, = server.generate_contexts(ctx)
+    server.get_in_object(ctx)
+    server.get_out_object(ctx)
+    server.get_out_string(ctx)
+    if ctx.out_error is not None:
+        return False
+    root = etree.fromstring(b''.join(ctx.out_string))
+    marked = [e for e in root.iter() if isinstance(e.tag, str) and e.get('{%s}type' % XSI_NS)]
+    if cls is not Base and len(marked) != 3:
+        return False
+    for e in marked:
+        pfx, _, nm = e.get('{%s}type' % XSI_NS).partition(':')
+        if e.nsmap.get(pfx) != 'tns' or nm != cls.__name__:
+            return False
+    return True
